@@ -141,6 +141,103 @@ def search_fill(seed=0, budget=60):
     return False, "; ".join(details)
 
 
+NEG = -(2 ** 30)
+
+
+def afill_oracle(code1, code2, M, go, ge, tp, local, init, out):
+    """Gotoh recurrences of _fill_align_table_affine; init/out = (T, Mt, A, B) as nested lists"""
+    n1, n2 = len(code1), len(code2)
+    T0, M0, A0, B0 = init
+    T, Mt, A, B = out
+    tpe = tp or local
+    for r in range(n1 + 1):
+        for c in range(n2 + 1):
+            if r == 0 or c == 0:
+                if (T[r][c], Mt[r][c], A[r][c], B[r][c]) != (T0[r][c], M0[r][c], A0[r][c], B0[r][c]):
+                    return f"boundary cell ({r},{c}) modified"
+                continue
+            sim = M[code1[r - 1]][code2[c - 1]]
+            mm, am, bm = Mt[r - 1][c - 1] + sim, A[r - 1][c - 1] + sim, B[r - 1][c - 1] + sim
+            f1 = (not tpe) and r == n1
+            f2 = (not tpe) and c == n2
+            ma, aa = Mt[r][c - 1] + (0 if f1 else go), A[r][c - 1] + (0 if f1 else ge)
+            mb, bb = Mt[r - 1][c] + (0 if f2 else go), B[r - 1][c] + (0 if f2 else ge)
+            m1, m2, m3 = max(mm, am, bm), max(ma, aa), max(mb, bb)
+            k1, k2, k3 = (not local) or m1 > 0, (not local) or m2 > 0, (not local) or m3 > 0
+            exp = (bits([(k1 and mm == m1, 1), (k1 and am == m1, 2), (k1 and bm == m1, 4), (k2 and ma == m2, 8), (k2 and aa == m2, 16),
+                         (k3 and mb == m3, 32), (k3 and bb == m3, 64)]),
+                   m1 if k1 else M0[r][c], m2 if k2 else A0[r][c], m3 if k3 else B0[r][c])
+            got = (T[r][c], Mt[r][c], A[r][c], B[r][c])
+            if got != exp:
+                return f"cell ({r},{c}): (trace, m, g1, g2) = {got}, the affine recurrences give {exp}"
+    return None
+
+
+def search_fill_affine(seed=0, budget=60):
+    rng = random.Random(seed)
+    inputs = []
+    for _ in range(budget):
+        n1, n2 = rng.randint(0, 3), rng.randint(0, 3)
+        asz = rng.randint(1, 3)
+        code1 = [rng.randrange(asz) for _ in range(n1)]
+        code2 = [rng.randrange(asz) for _ in range(n2)]
+        M = [[rng.randint(-3, 3) for _ in range(asz)] for _ in range(asz)]
+        go = rng.randint(-5, -1)
+        ge = rng.randint(go, 0)
+        tp, local = rng.random() < 0.5, rng.random() < 0.4
+        T0 = [[0] * (n2 + 1) for _ in range(n1 + 1)]
+        M0 = [[0] * (n2 + 1) for _ in range(n1 + 1)]
+        A0 = [[NEG] * (n2 + 1) for _ in range(n1 + 1)]
+        B0 = [[NEG] * (n2 + 1) for _ in range(n1 + 1)]
+        if not local:
+            for i in range(1, n1 + 1):
+                M0[i][0] = NEG
+                B0[i][0] = (go + ge * (i - 1)) if tp else 0
+            for j in range(1, n2 + 1):
+                M0[0][j] = NEG
+                A0[0][j] = (go + ge * (j - 1)) if tp else 0
+        inputs.append((code1, code2, M, go, ge, tp, local, (T0, M0, A0, B0)))
+    details = []
+    sync, checked, bad = compiled_in_sync(PW)
+    if sync:
+        import numpy as np
+        from biotite.sequence.align import pairwise
+        for code1, code2, M, go, ge, tp, local, init in inputs:
+            shape = (len(code1) + 1, len(code2) + 1)
+            T = np.array(init[0], dtype=np.uint8).reshape(shape)
+            tabs = [np.array(x, dtype=np.int32).reshape(shape) for x in init[1:]]
+            pairwise._fill_align_table_affine(np.array(code1, dtype=np.uint8), np.array(code2, dtype=np.uint8), np.array(M, dtype=np.int32),
+                                              T, tabs[0], tabs[1], tabs[2], go, ge, tp, local)
+            f = afill_oracle(code1, code2, M, go, ge, tp, local, init, (T.tolist(),) + tuple(t.tolist() for t in tabs))
+            if f:
+                return True, f"compiled _fill_align_table_affine on code1={code1} code2={code2} matrix={M} gap=({go},{ge}) term_penalty={tp} local={local}: {f}"
+        details.append(f"compiled module (in sync): {len(inputs)} small inputs agree with the affine recurrences")
+    else:
+        details.append(f"compiled module is stale w.r.t. pairwise.pyx (lines {bad[:5]})")
+    batch = []
+    for code1, code2, M, go, ge, tp, local, init in inputs:
+        batch.append({"args": [{"array": code1, "ctype": "uint8"}, {"array": code2, "ctype": "uint8"}, {"array": M, "ctype": "int32", "ndim": 2},
+                               {"array": init[0], "ctype": "uint8", "ndim": 2}] +
+                              [{"array": x, "ctype": "int32", "ndim": 2} for x in init[1:]] +
+                              [{"cv": go, "ctype": "int"}, {"cv": ge, "ctype": "int"}, {"cv": int(tp), "ctype": "bint"}, {"cv": int(local), "ctype": "bint"}]})
+    outs = engine_batch(PW + "::_fill_align_table_affine", batch)
+    for (code1, code2, M, go, ge, tp, local, init), o in zip(inputs, outs):
+        if o.get("outcome") in ("unsupported", "engine-error"):
+            details.append(f"extracted text not executable: {o.get('error')}")
+            break
+        if o.get("failed_safety_obligations"):
+            return True, f"extracted _fill_align_table_affine on code1={code1} code2={code2}: {o['failed_safety_obligations'][:2]}"
+        after = o.get("args_after") or []
+        if o.get("outcome") != "return" or len(after) < 7:
+            return True, f"extracted _fill_align_table_affine on code1={code1} code2={code2}: outcome {o.get('outcome')} {o.get('exception', '')}"
+        f = afill_oracle(code1, code2, M, go, ge, tp, local, init, (after[3], after[4], after[5], after[6]))
+        if f:
+            return True, f"extracted _fill_align_table_affine on code1={code1} code2={code2} matrix={M} gap=({go},{ge}) term_penalty={tp} local={local}: {f}"
+    else:
+        details.append(f"extracted text: {len(inputs)} small inputs agree with the affine recurrences")
+    return False, "; ".join(details)
+
+
 def main():
     rec = json.load(open(sys.argv[1]))
     m = rec.get("model", {})
@@ -149,6 +246,8 @@ def main():
             rep, detail = replay_linear(m)
         elif "get_trace_affine" in rec["case"]:
             rep, detail = replay_affine(m)
+        elif "_fill_align_table_affine" in rec["case"]:
+            rep, detail = search_fill_affine()
         elif "_fill_align_table" in rec["case"]:
             rep, detail = search_fill()
         else:
